@@ -158,8 +158,8 @@ class R:
 HOW_EXIT, HOW_SIGNAL, HOW_TIMEOUT, HOW_EVENTS, HOW_QUIT_IGNORED, HOW_SIGINT_DFL, HOW_SANITIZER, HOW_HARNESS = range(8)
 HOW_NAMES = ["exit", "signal", "timeout", "event-ceiling", "quit-ignored", "sigint-default", "sanitizer", "harness"]
 
-F_OPEN_FAIL, F_READ_EOF, F_READ_EIO, F_WRITE_FAIL, F_VANISH, F_UNLINK_FAIL = 1, 2, 3, 4, 5, 6
-FAULT_NAMES = {1: "open_fail", 2: "read_eof", 3: "read_eio", 4: "write_fail", 5: "vanish", 6: "unlink_fail"}
+F_OPEN_FAIL, F_READ_EOF, F_READ_EIO, F_WRITE_FAIL, F_VANISH, F_UNLINK_FAIL, F_NOSEEK = 1, 2, 3, 4, 5, 6, 7
+FAULT_NAMES = {1: "open_fail", 2: "read_eof", 3: "read_eio", 4: "write_fail", 5: "vanish", 6: "unlink_fail", 7: "noseek"}
 FAULT_IDS = {v: k for k, v in FAULT_NAMES.items()}
 
 COUNTERS = ["fopen", "fopen_fail_natural", "f_open_fail", "f_read_eof", "f_read_eio",
